@@ -2,9 +2,9 @@ from dataclasses import dataclass
 
 import numpy as np
 from xdsl.context import Context
-from xdsl.dialects import builtin, memref
+from xdsl.dialects import arith, builtin, memref
 from xdsl.dialects.builtin import AffineMapAttr, ArrayAttr, MemRefType
-from xdsl.ir import Operation
+from xdsl.ir import Operation, SSAValue
 from xdsl.ir.affine import AffineMap
 from xdsl.passes import ModulePass
 from xdsl.pattern_rewriter import (
@@ -38,6 +38,8 @@ class LayoutResolution(RewritePattern):
             return [1 if j == i else 0 for j in range(n)]
 
         access_patterns: list[AffineMap] = []
+        # constant term (in bytes) of every operand's access->memory map: static layout offset, schedule constants
+        offsets: list[int] = []
 
         # Do this for every operand:
         for operand in range(len(op.operands)):
@@ -68,9 +70,19 @@ class LayoutResolution(RewritePattern):
                 )
 
             access_patterns.append(AffineTransform(np.array([strides]), np.array([0])).to_affine_map())
+            offsets.append(zero_response)
 
-        new_inputs: list[Operation] = [memref.ExtractAlignedPointerAsIndexOp.get(input) for input in op.inputs]
-        new_outputs = [memref.ExtractAlignedPointerAsIndexOp.get(output) for output in op.outputs]
+        # the aligned pointer excludes the constant term of the access map: add it to the base pointer
+        pointer_ops: list[Operation] = []
+        pointers: list[SSAValue] = []
+        for operand, offset in zip(op.operands, offsets):
+            pointer_ops.append(pointer := memref.ExtractAlignedPointerAsIndexOp.get(operand))
+            if offset != 0:
+                pointer_ops.append(cst := arith.ConstantOp.from_int_and_width(offset, builtin.IndexType()))
+                pointer_ops.append(pointer := arith.AddiOp(pointer, cst))
+            pointers.append(pointer.results[0])
+        new_inputs = pointers[: len(op.inputs)]
+        new_outputs = pointers[len(op.inputs) :]
 
         new_patterns = ArrayAttr([AffineMapAttr(map) for map in access_patterns])
 
@@ -83,7 +95,7 @@ class LayoutResolution(RewritePattern):
             op.accelerator,
             op.result_types,
         )
-        rewriter.replace_op(op, [*new_inputs, *new_outputs, access_pattern_op], access_pattern_op.results)
+        rewriter.replace_op(op, [*pointer_ops, access_pattern_op], access_pattern_op.results)
 
 
 @dataclass(frozen=True)
